@@ -192,6 +192,25 @@ def cascadeResp [DecidableEq α] (bank : List (List α × List α)) (w : α) : R
 def parallelResp [DecidableEq α] (bank : List (List α × List α)) (w : α) : Resp α :=
   reduceResp (· + ·) (bank.map fun f => respOfFilter f.1 f.2 w)
 
+/-- Banks nest: a member of a `CascadeFilter` / `ParallelFilter` may itself be a bank (its
+    `freq_response` is called like a filter's). -/
+inductive Bank (α : Type) where
+  | filt (b a : List α)
+  | cascade (members : List (Bank α))
+  | parallel (members : List (Bank α))
+
+mutual
+/-- `bank.freq_response(freq)` at `w = exp(-1j*freq)`, recursively -/
+def Bank.resp [DecidableEq α] (w : α) : Bank α → Resp α
+  | .filt b a => respOfFilter b a w
+  | .cascade ms => reduceResp (· * ·) (Bank.respList w ms)
+  | .parallel ms => reduceResp (· + ·) (Bank.respList w ms)
+/-- the generator `(filt.freq_response(freq) for filt in self.callables)` -/
+def Bank.respList [DecidableEq α] (w : α) : List (Bank α) → List (Resp α)
+  | [] => []
+  | m :: ms => Bank.resp w m :: Bank.respList w ms
+end
+
 /-- `@elementwise("freq", 1)`: one call per element, in order, result container of the same kind -/
 def elementwise {β γ : Type} (f : β → γ) (freqs : List β) : List γ := freqs.map f
 
